@@ -723,6 +723,9 @@ def call_numpy(ex, fn, args, kwargs, line):
             raise Unsupported('copyto operands')
         ex.note_write(('A', arrays.root_of(dst).oid), dst.name)
         dst.term = src.term
+        if getattr(dst, 'is_ghost_pvals', False):
+            ex.note_write(('G', 'pvals'), 'ghost:pvals')
+            ex.ghost.setdefault('g', {})['pvals'] = src.term       # the accessor's array IS the interface parameter vector
         return None
     if fn == 'concatenate':
         parts = list(a0)
